@@ -495,6 +495,10 @@ func (g *vcgen) call2(v ssa.Value, c *ssa.CallCommon, args []string) []string {
 			return g.freshResults(c.Signature())
 		}
 	}
+	if g.eng.libraryFuncValue(c.Value, 0) {
+		g.noteAssumption("a function value returned by a library call (" + origin(c.Value) + ") is called: library code has no effect on module state; result arbitrary")
+		return g.freshResults(c.Signature())
+	}
 	if fk := g.eng.libraryFuncField(c.Value); fk != "" {
 		g.noteAssumption("dynamic call through field " + fk + ": every value stored there is the result of a library call (checked), so the call is a library call without effect on module state")
 		return g.freshResults(c.Signature())
@@ -1810,6 +1814,8 @@ func (g *vcgen) goStmt(x *ssa.Go) {
 	if fn == nil {
 		return
 	}
+	// starting a goroutine is an observable step of the spawner: a "call" event of the started function
+	g.emitEvents(c, args, nil, false)
 	if fc := g.eng.ContractOf(fn); fc != nil {
 		env := g.contractEnv(fc, fn, fn.Signature, args, binds, nil, g.st, nil)
 		site := g.callSite("go " + shortName(FullName(fn)))
